@@ -68,6 +68,8 @@ def scenario(rng, t, nops=None, partial=True, allow_eof=True):
         elif rng.random() < 0.15:
             announced[c] = ("k" + c).encode()
             opt = " id=" + W.tok(announced[c])
+        elif rng.random() < 0.12:
+            opt = " id=-"          # an Identity property that is present but empty announces nothing (libzmq's default)
         ops.append("attach %s %s%s" % (c, PEER[t], opt))
 
     if rng.random() < 0.85:
